@@ -53,6 +53,7 @@ def run(P, rep, tier):
     rep.attempt(r2_taint, P, rep, ctx)
     rep.attempt(r3_listings, P, rep, ctx)
     rep.attempt(r4_predicates, P, rep, ctx)
+    rep.attempt(r6_membership, P, rep, ctx)
     # the bookkeeping never disturbs user data: destroying the metadata of a *copy* made without metadata must not unlink the originals' objects (a later user operation on the original would fail)
     from . import c06
 
@@ -594,6 +595,41 @@ def _last_segment_on_path(stmts) -> Optional[ast.AST]:
         elif isinstance(st, ast.Return) and st.value is not None:
             return str_last(st.value)
     return None
+
+
+def r6_membership(P, rep, ctx):
+    """`name in group` answers from the *filtered* listing, segment by segment: an absolute name asked of a non-root group
+    goes through the root wrapper; otherwise the first segment must be one of keys() (user-visible children only) and the
+    rest is asked of the wrapped child obtained with get()."""
+    fi = P.func(f"{W}.MetadorGroup.__contains__")
+    f = F(ctx, fi)
+    nm = fi.params[1]
+    SEGS = f"{nm}.lstrip('/').split('/')"
+    ABS, ROOT, ONE, NXT = f"{nm}[0] == '/'", "self.name == '/'", f"len({SEGS}) == 1", f"self.get({SEGS}[0])"
+
+    def spec(d):
+        if d.get(ABS) is True and d.get(ROOT) is False:
+            return f"{nm} in self['/']"
+        if (d.get(ABS) is False or d.get(ROOT) is True) or (ABS not in d and ROOT not in d):
+            if d.get(ONE) is True:
+                return f"{SEGS}[0] in self.keys()"
+            if d.get(ONE) is False and d.get(NXT) is True:
+                return f"'/'.join({SEGS}[1:]) in self.get({SEGS}[0])"
+            if d.get(ONE) is False and d.get(NXT) is False:
+                return "False"
+        return None
+
+    try:
+        bad = f.decision_mismatches(spec)
+    except ValueError as e:
+        raise AnalysisError(f"C08.R6: __contains__: {e}")
+    for lits, got, want in bad[:3]:
+        when = " and ".join((k if tv else f"not ({k})") for k, tv in lits)
+        rep.fail("C08.R6", fi.qual, f"membership when {when[:90]}", f"MetadorGroup.__contains__ answers `{got[:80]}` when {when[:160]} (expected `{want}`): membership is no longer decided through the filtered listing of each path segment — reserved names become testable / user nodes are reported wrongly", fi.loc())
+    if f.undecided_paths:
+        rep.info(f"C08.R6: {f.undecided_paths} path(s) of __contains__ test conditions the membership table does not know (no verdict for them)")
+    if not bad:
+        rep.ok("C08.R6", fi.qual, "membership is decided segment by segment through keys() / get() of the wrappers (absolute names via the root wrapper)", fi.loc())
 
 
 def r4_predicates(P, rep, ctx):
